@@ -485,9 +485,12 @@ class ServiceDiscoveryProtocol(SOMEIPDatagramProtocol):
     def connection_lost(self, exc: typing.Optional[Exception]) -> None:
         log = self.log.exception if exc else self.log.info
         log("connection lost. stopping all child tasks", exc_info=exc)
-        asyncio.get_event_loop().call_soon(self.subscriber.connection_lost, exc)
-        asyncio.get_event_loop().call_soon(self.discovery.connection_lost, exc)
-        asyncio.get_event_loop().call_soon(self.announcer.connection_lost, exc)
+        # handled immediately, like a detected reboot: one of the two sockets (unicast,
+        # multicast) may still deliver datagrams, and what they carry must be applied
+        # after the clean-up, not be wiped by it one loop iteration later
+        self.subscriber.connection_lost(exc)
+        self.discovery.connection_lost(exc)
+        self.announcer.connection_lost(exc)
 
     def reboot_detected(self, addr: _T_SOCKADDR) -> None:
         # must be handled immediately: message_received() goes on to dispatch the
